@@ -47,6 +47,8 @@ theorem skel_auth_PermissionedProxy_shape :
   "      if actx, ok := args[0].Interface().(context.Context); ok && actx != nil",
   "        ctx = actx",
   "    if HasPerm(ctx, defaultPerms, requiredPerm)",
+  "      if field.Type.IsVariadic()",
+  "        return fn.CallSlice(args)",
   "      return fn.Call(args)",
   "    err := xerrors.Errorf(\"missing permission to invoke '%s' (need '%s')\", field.Name, requiredPerm)",
   "    rerr := reflect.ValueOf(&err).Elem()",
